@@ -163,6 +163,18 @@ Definition c14_im (pool : list value) (c : c14_case) : bool :=
   | COrder _ ix o => let l := map (getv pool) ix in agree_val l (order_model l) o
   end.
 
+(* ---------- representation independence (run-level specification) ----------
+   Values of the model are abstract: VList / VMap carry no representation.  The harness evaluates every
+   pair also with the lists of both operands (down to nesting depth 2) rebuilt, for every evaluation, in
+   each un-evaluated representation (accept, accept dropping leading/trailing items, skip, top over sized
+   and unsized sources with n equal to / larger than the number of items, combine, + of two halves, append,
+   map(e->e) over each of these), and hands Coq the SAME CPair / CMem case: c14_im and c14_is below judge
+   the answers by the abstract values only, so an answer that depends on the representation (or on whether
+   a list has been evaluated before) fails both; the only representation input of the model is the
+   materialisation flag of the right operand of list ~ list (CMem), which the implementation consults. *)
+Definition representation_independent (pool : list value) (c : c14_case)
+  (im is : list value -> c14_case -> bool) : bool := im pool c && is pool c.
+
 (* ---------- implementation vs specification ---------- *)
 
 Definition same_obs (x y : obs) : bool :=
